@@ -851,8 +851,13 @@ class Checker:
             if all_mode:
                 sw["pairs_in_all_events_mode"] += 1
                 points = list(range(1, na + 1, stride))
-            elif op_mode or not self.cfg.get("sweep_lasts", True):
+            elif op_mode:
                 points = sorted(set(x[0] for x in sites))
+            elif not self.cfg.get("sweep_lasts", True):
+                # quick tier: first execution of every line, plus the last execution
+                # of lines that run only a few times (short loops are where state is
+                # published in pieces)
+                points = sorted(set([x[0] for x in sites] + [x[1] for x in sites if x[2] <= 4]))
             else:
                 points = sorted(set([x[0] for x in sites] + [x[1] for x in sites]))
             cpoints = sorted(set(x[0] for x in sites)) if not all_mode else points
